@@ -5,7 +5,7 @@ from tools.harness import common, streams
 ID = 'C16'
 TARGETS = ['MindsVerif.Props.C16']
 THEOREMS = ['MindsVerif.Props.C16.' + n for n in (
-    'C16', 'C16_command', 'C16_link', 'C16_link_nonvacuous', 'phi_mindsdb', 'mw_parsed', 'mw_plus_kinds', 'sepStable_witness_plus',
+    'C16', 'C16_command', 'C16_link', 'C16_link_nonvacuous', 'C16_regression_multiline', 'phi_mindsdb', 'mw_parsed', 'mw_plus_kinds', 'sepStable_witness_plus',
     'sepStable_others', 'C16_partial', 'C16_partial_command', 'C16_layout', 'C16_closed_form', 'C16_columns', 'C16_render_blankSep',
     'C16_layout_source', 'C16_blank_spec', 'C16_rawquery', 'C16_fixed', 'C16_live_cfg', 'phi16_mindsdb', 'pin_tokenFuncs',
     'pin_rewriting', 'pin_ignored',
